@@ -336,6 +336,90 @@ _add(Cond('relabel_rename_insert', [('pos', 'int'), ('newlab', 'int'), ('nm', 'i
 
 
 
+# ---------------------------------------------------------------- column KINDS and value kind symbolic, every block layout
+
+UPD_KINDS = (('int64', (3, 4)), ('float64', (1.5, 2.5)), ('bool', (True, False)), ('<U1', ('x', 'y')))
+UPD_VALUES = (9, 0.5, True, 'zz', None)
+UPD_ROW_KEYS = (0, 1, slice(None))
+
+
+def _lays_for(kinds):
+    out = []
+    for lay in layouts.compositions(len(kinds)):
+        j, ok = 0, True
+        for nd, w in lay:
+            if len(set(kinds[j:j + w])) > 1:
+                ok = False
+            j += w
+        if ok:
+            out.append(lay)
+    return out
+
+
+def _pick(seq, i):
+    for k in range(len(seq)):
+        if i == k:
+            return seq[k]
+    raise AssertionError('out of range')
+
+
+def body_update_kinds(env, k1, k2, col, rk, vk, op):
+    from vf import rt
+    kinds = [0, _pick((0, 1, 2, 3), k1), _pick((0, 1, 2, 3), k2)]
+    col, rkey, value, op = _pick((0, 1, 2), col), _pick(UPD_ROW_KEYS, rk), _pick(UPD_VALUES, vk), _pick(('assign', 'mask', 'drop'), op)
+
+    def run():
+        sf = env.sf
+        from static_frame.core.type_blocks import TypeBlocks
+        cols = [list(UPD_KINDS[k][1]) for k in kinds]
+        cols[0] = [3, 4]
+        rows = [[cols[c][r] for c in range(3)] for r in range(2)]
+        index, columns = [10, 11], ['a', 'b', 'c']
+        dts = [UPD_KINDS[k][0] for k in kinds]
+        hit_rows = [0, 1] if isinstance(rkey, slice) else [rkey]
+        if op == 'assign':
+            exp = ['F', index, columns, [[(value if (r in hit_rows and c == col) else rows[r][c]) for c in range(3)] for r in range(2)],
+                   [('?' if c == col else env.xp.dtype(dts[c]).kind) for c in range(3)]]
+        elif op == 'mask':
+            exp = ['F', index, columns, [[(r in hit_rows and c == col) for c in range(3)] for r in range(2)], ['b'] * 3]
+        else:
+            keep_r = [r for r in range(2) if r not in hit_rows]
+            keep_c = [c for c in range(3) if c != col]
+            exp = ['F', [index[r] for r in keep_r], [columns[c] for c in keep_c],
+                   [[rows[r][c] for c in keep_c] for r in keep_r] if keep_r else [], [env.xp.dtype(dts[c]).kind for c in keep_c]]
+        got = []
+        for lay in _lays_for(kinds):
+            tb = TypeBlocks.from_blocks(layouts.build_blocks_typed(env, cols, dts, lay))
+            f = sf.Frame(tb, index=index, columns=columns)
+            before = [env.obs(f.values.tolist()), [dt.kind for dt in f._blocks._dtypes]]
+            if op == 'assign':
+                r = f.assign.iloc[rkey, col](value)
+            elif op == 'mask':
+                r = f.mask.iloc[rkey, col]
+            else:
+                r = f.drop.iloc[rkey, col]
+            kinds_got = [dt.kind for dt in r._blocks._dtypes]
+            if op == 'assign':
+                kinds_got[col] = '?'     # the dtype of the assigned column is C07's subject; its CELLS are checked here
+            vals = env.obs(r.values.tolist()) if r.shape[0] and r.shape[1] else []
+            got.append([['F', env.obs(r.index.values.tolist()), env.obs(r.columns.values.tolist()), vals, kinds_got],
+                        [env.obs(f.values.tolist()), [dt.kind for dt in f._blocks._dtypes]] == before])
+        return got, [[exp, True]] * len(got)
+    return rt.untraced(run)
+
+
+def _mk_update_kinds(tag, pre, note):
+    return Cond('update_column_kinds_all_layouts_' + tag, [('k1', 'int'), ('k2', 'int'), ('col', 'int'), ('rk', 'int'), ('vk', 'int'), ('op', 'int')], body_update_kinds,
+        ranges={'k1': (0, 3), 'k2': (1, 3), 'col': (0, 2), 'rk': (0, len(UPD_ROW_KEYS) - 1), 'vk': (0, len(UPD_VALUES) - 1), 'op': (0, 2)},
+        pre=pre, functions=['TypeBlocks.drop'] if tag != 'assign' else [],
+        bounds='2x3 frame; kinds of the 2nd and 3rd column symbolic over (int64, float64, bool, str); ' + note + '; EVERY block layout that can hold the kinds',
+        route='assign / mask / drop on mixed column kinds: exactly the addressed cells change (value and type of all others kept, dtypes of untouched columns kept), the original is unchanged, the same over all block layouts', timeout=600)
+
+
+_add(_mk_update_kinds('assign', ['op == 0', 'rk != 1'], 'assign at a symbolic row key (0, :) and column; assigned value symbolic over (9, 0.5, True, "zz", None)'))
+_add(_mk_update_kinds('mask_drop', ['op != 0', 'vk == 0'], 'mask / drop (symbolic) at a symbolic row key (0, 1, :) and column'))
+
+
 # ---------------------------------------------------------------- E3: unbounded second opinion on the integer kernel
 
 def extra_queries(tier):
